@@ -11,7 +11,7 @@ from ..cfg import cfg_of
 from ..model import AnalysisError, FunctionInfo, bind_args
 from ..roles import roles_of
 from ..terms import call_name, canon, cmp_normal, conjuncts, const_num, const_str, guard_canon, guard_of, norm_stmt, state_key
-from .common import deref_canon as _deref_c, attr_stores, int_le_form, iter_stores, key_stores, reaching_assignments, self_attr_of, store_base
+from .common import deref_canon as _deref_c, attr_stores, int_le_form, iter_stores, key_stores, reaching_assignments, self_attr_of, store_base, pos
 
 EXPLANATION = (
     "R1 who-may-call: the user callable is invoked at exactly one site; its attribute is read elsewhere only to store the reference in the "
@@ -251,7 +251,7 @@ def check(ctx):
     if host is None:
         ctx.fail(opt, opt.node, "the final re-sampling of noisy targets is not reserved from the budget: options['max_fun_evals'] is never reduced", construct="<missing final-sample reserve>")
     else:
-        stmts = sorted([s for fn, t, v, s, k in nfs + mx if fn is host], key=lambda s_: s_.lineno)
+        stmts = sorted([s for fn, t, v, s, k in nfs + mx if fn is host], key=pos)
         # locals the stores are computed from (n = min(a, b); options[..] = n): their assignments in the same block,
         # by backward closure over the names used
         blk = None
@@ -265,13 +265,13 @@ def check(ctx):
         if blk is not None:
             need = {n.id for s_ in stmts for n in ast.walk(s_) if isinstance(n, ast.Name) and isinstance(n.ctx, ast.Load)}
             extra = []
-            last_ln = max(s_.lineno for s_ in stmts)
-            for s_ in reversed([x for x in blk if isinstance(x, ast.Assign) and x.lineno <= last_ln and not any(x is y for y in stmts)]):
+            last_ln = max(pos(s_) for s_ in stmts)
+            for s_ in reversed([x for x in blk if isinstance(x, ast.Assign) and pos(x) <= last_ln and not any(x is y for y in stmts)]):
                 tg = [t.id for t in s_.targets if isinstance(t, ast.Name)]
                 if tg and set(tg) & need:
                     extra.append(s_)
                     need |= {n.id for n in ast.walk(s_.value) if isinstance(n, ast.Name)}
-            stmts = sorted(stmts + extra, key=lambda s_: s_.lineno)
+            stmts = sorted(stmts + extra, key=pos)
         try:
             tr = Translator(positive=["OPT[noise_final_samples]", "OPT[max_fun_evals]", "LOG.func_count"])
             M, N, C = tr.sym("OPT[max_fun_evals]"), tr.sym("OPT[noise_final_samples]"), tr.sym("LOG.func_count")
